@@ -353,6 +353,36 @@ theorem new_spec (t : T) (hsz : t.size < 2 ^ 64) (hholds : Holds cref get t) :
     simp only [T.data]; rw [List.drop_left' (le64_length _)]
   simp only [hlen8, ↓reduceIte, hspan, hpl]
 
+/-- the premises shared by the reader theorems: a well-formed tree of height ≤ `h`, stored under
+    references of `R` bytes, with the reader's branching derivation `C / R = B` -/
+structure Stored (h : Nat) (t : T) : Prop where
+  refLen : ∀ s p, (cref s p).length = R
+  rpos : 0 < R
+  branching : C / R = B
+  b2 : 2 ≤ B
+  c1 : 1 ≤ C
+  wf : WF C B h t
+  small : t.size < 2 ^ 64
+  holds : Holds cref get t
+
+/-- the joiner opened on `t`, positioned at `off` -/
+def jOf (t : T) (off : Nat) : J := { rootData := t.payload cref, span := t.size, off := off, refLength := R }
+
+theorem readAt_spec (h : Nat) (t : T) (S : Stored cref get C B R h t) (fuel : Nat) (hf : h + 1 ≤ fuel)
+    (o len : Nat) (mem : Bytes) (off : Nat) (hcap : len ≤ mem.length) :
+    (jOf cref R t o).readAt get C fuel len mem off =
+      if off ≥ t.size then { n := 0, err := some .eof, mem := mem }
+      else { n := min len (t.size - off), err := none,
+             mem := splice mem 0 ((t.flat.drop off).take (min len (t.size - off))) } := by
+  unfold J.readAt jOf
+  by_cases hoff : off ≥ t.size
+  · simp [hoff]
+  · simp only [hoff, ↓reduceIte]
+    have := readAtOffset_spec cref get C B R S.refLen S.rpos S.branching S.b2 S.c1 h t S.wf S.small S.holds
+      fuel hf 0 off 0 (min len (t.size - off)) { mem := mem, read := 0 } (Nat.zero_le _) (by omega) (by simp only []; omega)
+    simp only [Nat.sub_zero, Nat.zero_add] at this
+    rw [this]
+
 end Reader
 
 end Aurora.Joiner
